@@ -68,13 +68,13 @@ Proof.
   - intros st r o. unfold split_output. destruct (nth_error _ _) as [nd|]; [destruct (smemb _ _)|]; discriminate.
 Qed.
 
-Lemma fuse_inputs_fuel : forall func cnt inputs h' (cur : node P) any calls,
-  fuse_inputs func cnt h' cur any calls inputs <> Err OOF.
+Lemma fuse_inputs_fuel : forall func cnt inputs h' (cur : node P) self is_self any calls,
+  fuse_inputs func cnt h' cur self is_self any calls inputs <> Err OOF.
 Proof.
-  intros func cnt inputs. induction inputs as [|[iname [rp oname]] rest IH]; intros h' cur any calls; simpl; [discriminate|].
+  intros func cnt inputs. induction inputs as [|[iname [rp oname]] rest IH]; intros h' cur self is_self any calls; simpl; [discriminate|].
   destruct (Nat.ltb 1 (count_of rp cnt)); [apply IH|].
   destruct (nth_error h' rp) as [pn|]; [|discriminate].
-  destruct (func pn oname cur iname); apply IH.
+  destruct (func pn oname cur iname) as [[ip fused]|]; apply IH.
 Qed.
 
 Lemma fuse_fuel : forall func (g : graph P), topo (heap g) -> valid_sinks g -> fuse_nodes func g <> Err OOF.
@@ -86,9 +86,9 @@ Proof.
   intros Heq. injection Heq as ->. revert Htr.
   apply (transform_fuel P _ _ _ (fuse_visit func oc) fuse_output (heap g) Ht); [| |exact Hs].
   - intros st n nd inputs. unfold fuse_visit.
-    match goal with |- bind ?m _ <> _ => destruct m as [[[[h1 cur] any] calls]|e'] eqn:Hm end; simpl.
+    match goal with |- bind ?m _ <> _ => destruct m as [[[[[h1 cur] self] any] calls]|e'] eqn:Hm end; simpl.
     + destruct any; discriminate.
-    + intros Heq. injection Heq as ->. exact (fuse_inputs_fuel _ _ _ _ _ _ _ Hm).
+    + intros Heq. injection Heq as ->. exact (fuse_inputs_fuel _ _ _ _ _ _ _ _ _ Hm).
   - intros st r o. apply out_node_fuel.
 Qed.
 
